@@ -176,7 +176,11 @@ func mountIndexer(defaultPath string) indexer {
 		case map[string]any:
 			t, ok := v["target"]
 			if ok {
-				return t.(string), nil
+				target, isString := t.(string)
+				if !isString {
+					return "", fmt.Errorf("%s: target must be a string, got %T", path, t)
+				}
+				return target, nil
 			}
 			return fmt.Sprintf("%s/%s", defaultPath, v["source"]), nil
 		default:
@@ -222,7 +226,11 @@ func envFileIndexer(y any, p tree.Path) (string, error) {
 		return value, nil
 	case map[string]any:
 		if pathValue, ok := value["path"]; ok {
-			return pathValue.(string), nil
+			path, isString := pathValue.(string)
+			if !isString {
+				return "", fmt.Errorf("%s: path must be a string, got %T", p, pathValue)
+			}
+			return path, nil
 		}
 		return "", fmt.Errorf("environment path attribute %s is missing", p)
 	}
